@@ -211,13 +211,27 @@ def read(index, rep):
     body = fn.body
     first_solve = read_i = first_helper = assert_i = None
     ret = None
+    read_name = None
+    status_name = None
+    model_p = fn.args.args[1].arg if len(fn.args.args) > 1 else "model"
+    flag_ok = False
     for i, st in enumerate(body):
         txt = norm_src(st)
-        if first_solve is None and isinstance(st, ast.Assign) and "model.solve(" in txt:
+        if first_solve is None and isinstance(st, ast.Assign) and f"{model_p}.solve(" in txt and isinstance(st.targets[0], ast.Name):
             first_solve = i
-        if isinstance(st, ast.If) and "assert status == 1" in txt and assert_i is None:
+            status_name = st.targets[0].id
+        if isinstance(st, ast.If) and status_name and f"assert {status_name} == 1" in txt and assert_i is None:
             assert_i = i
-        if isinstance(st, ast.Assign) and norm_src(st.value) == "model.objective.value()":
+            # the flag guarding the assertion is literally True
+            if isinstance(st.test, ast.Name):
+                flag_ok = any(isinstance(s_, ast.Assign) and isinstance(s_.targets[0], ast.Name) and s_.targets[0].id == st.test.id
+                              and isinstance(s_.value, ast.Constant) and s_.value.value is True for s_ in body[:i]) and not any(
+                    isinstance(s_, ast.Assign) and isinstance(s_.targets[0], ast.Name) and s_.targets[0].id == st.test.id
+                    and not (isinstance(s_.value, ast.Constant) and s_.value.value is True) for s_ in body)
+        if assert_i is None and isinstance(st, ast.Assert) and status_name and norm_src(st.test).startswith(f"{status_name} == 1"):
+            assert_i = i
+            flag_ok = True
+        if isinstance(st, ast.Assign) and norm_src(st.value) == f"{model_p}.objective.value()":
             read_i = i
             read_name = st.targets[0].id if isinstance(st.targets[0], ast.Name) else None
         if first_helper is None and any(isinstance(c, ast.Call) and (dotted(c.func) or "").startswith("self.") for c in ast.walk(st)):
@@ -230,9 +244,7 @@ def read(index, rep):
     rep.check(ok, rule, "read-after-first-solve",
               "percent fed is not read from model.objective.value() right after the first successful solve and before the "
               "tie-breaking re-optimisations", loc=loc(OPT, fn))
-    # the flag guarding the assertion is literally True
-    flag_ok = any(isinstance(s, ast.Assign) and norm_src(s) == "ASSERT_SUCCESSFUL_OPTIMIZATION_FLAG = True" for s in body)
-    rep.check(flag_ok, rule, "success-assertion-enabled", "ASSERT_SUCCESSFUL_OPTIMIZATION_FLAG is not literally True",
+    rep.check(flag_ok, rule, "success-assertion-enabled", "the flag guarding the success assertion is not literally True",
               loc=loc(OPT, fn))
     rep.check(ret is not None and isinstance(ret.value, ast.Name) and ret.value.id == read_name, rule,
               "returned-value", "the function no longer returns the value read after the first solve", loc=loc(OPT, fn))
